@@ -597,6 +597,21 @@ func run(c *mon.Ctx) {
 			}
 		}
 	})
+	// long slices (tens to hundreds of packets, a whole read buffer): the same contract, in particular a ragged
+	// length is refused before the first packet is delivered, and a failing write stops the delivery where it is
+	longK := []int{31, 32, 33, 63, 64, 65, 100, 127, 128, 129, 348, 349, 400, 1000}
+	c.StreamSeedless("write-long-slices", len(longK), func(i int, r *gen.Rand) {
+		k := longK[i]
+		for _, tail := range []int{0, 1, 95, 187} {
+			for _, failW := range []int{-1, 0, 1, 31, 32, 33, k - 1, r.Intn(k)} {
+				doWrite(c, k, tail, failW, r.Intn(4), r)
+			}
+		}
+		for _, rk := range []int{0, 1, 2, 4} {
+			doReadFrom(c, k, []int{0, 95}[r.Intn(2)], []int{-1, 32, k - 1}[r.Intn(3)], -1, rk, r.Intn(4), r)
+		}
+		c.Count("write.long_slices")
+	})
 	c.Exhaustive("ReadFrom: k 0..20 x failing write position -1..k x 4 tails x 9 reader kinds", int64(21*22/2+21)*36)
 	c.StreamSeedless("readfrom-write-faults", maxK+1, func(k int, r *gen.Rand) {
 		for failW := -1; failW <= k; failW++ {
@@ -681,7 +696,7 @@ func run(c *mon.Ctx) {
 			c.Fail("overlap:adapter-feeding-another-adapter", fmt.Sprintf("%s of %d packets through an adapter whose packet writer forwards each packet through a second adapter (after a failed write on a third, unrelated adapter): n=%d err=%v, %d packets reached the forwarding writer, %d the final sink, or some arrived with other bytes", op, k, n, err, len(seen), len(final.got)), wit{Op: op, Packets: k, FailWrite: -1, FailRead: -1})
 		}
 		if i%20 == 0 {
-			c.Concurrent("adapters of their own (Write / ReadFrom)", 8, 100, r, func(q *gen.Rand) string {
+			c.Concurrent("adapters of their own (Write / ReadFrom)", 8, 800, r, func(q *gen.Rand) string {
 				s := &sink{failAt: -1}
 				if q.Chance(4) {
 					s.failAt = q.Intn(4)
